@@ -46,6 +46,17 @@ def main(argv):
     chk = core.Check('C04', 'model_checking', argv)
     thorough = chk.tier == 'thorough'
     m = tp.model(chk, 'TxPipeline invariants (proof alignment, new vs update, depth)', {'MaxArr = 4': 'MaxArr = 3'} if not thorough else {})
+    ms = [m]
+    if not os.environ.get('VERIF_SKIP_MODEL'):
+        # the confirming block is orphaned and replaced: every delivered proof must be for a block of the chain (ProofValid)
+        for blk in ('BlkR', 'BlkR2'):
+            ms.append(tp.model(chk, 'TxPipeline with a reorganisation (%s)' % blk, {
+                'MaxArr = 4': 'MaxArr = 3' if not thorough else 'MaxArr = 4', 'Blk <- Blk3': 'Blk <- ' + blk, 'MaxReorg = 0': 'MaxReorg = 1',
+                'MaxRestart = 1': 'MaxRestart = 0', 'MaxCheck = 2': 'MaxCheck = 1', 'MaxClock = 3': 'MaxClock = 2',
+                'INVARIANTS AtMostOnceNew': 'INVARIANTS ProofValid AtMostOnceNew'}))
+        for x in ms:
+            if not x.ok:
+                chk.infra('model checking did not pass: %s %s' % (x.kind, x.violated))
     cs = cases(chk)
     scripts = []
     if chk.replay:
@@ -82,12 +93,14 @@ def main(argv):
     if not chk.replay:
         seed = chk.seed * 100 + 4
         sims = tp.gen(chk, 'U4', (200 if thorough else 60), 45, seed + 1) + tp.gen(chk, 'U3', (200 if thorough else 60), 40, seed + 2)
+        sims += tp.gen(chk, 'R3', (200 if thorough else 60), 45, seed + 3) + tp.gen(chk, 'R3b', (200 if thorough else 60), 45, seed + 4)
+        sims += tp.gen(chk, 'R3', (100 if thorough else 30), 45, seed + 5, race=True)
         old = chk.violation
 
         r2 = tp.run(chk, sims, TX_FORMULAS)
     sizes = sorted({s.get('case', {}).get('n', 0) + 1 for s in scripts})
     chk.finish({
-        'states': m.distinct, 'transitions': m.generated,
+        'states': sum(x.distinct for x in ms), 'transitions': sum(x.generated for x in ms),
         'traces_validated_against_impl': len(scripts) - len({lines[l - 1]['tr'] for _, l in bad}) + (r2['traces'] - len(r2['drift']) if sims else 0),
         'evaluations': len(scripts) + len(sims),
         'distinct_nontrivial': len({json.dumps(s.get('case', {}).get('cls')) + s['id'][:3] for s in scripts if any(x != 'none' for x in s['exp'])}),
